@@ -12,6 +12,10 @@ CLAIMED = {
         technique="deterministic simulation with fault injection: every malformation class x position x carrier family x dependence structure injected into an otherwise valid staged pipeline (build, construct, fit, evaluate, contour); fault-free twin as reference",
         text="Complete enumeration of single malformations (class x position x carrier family x conditional_on structure of 1-4 dimensions) plus seeded pairs, each injected into a staged pipeline whose fault-free twin completes; a violation is a stage that returns normally although it computed with the malformed item.",
         note="Trusts the harness's table of the latest admissible stage per malformation class (description faults: the model constructor; others: first stage that computes with the item); any exception type counts as rejection."),
+    "C11": dict(engine="fit", level="exploration", design="DESIGN.md section 3 / C11",
+        technique="deterministic simulation: seeded histories construct -> (fit | fit with estimator-rejected data | evaluate)* on stateful distribution objects and ConditionalDistributions, (family x fixed-subset) grid walked systematically; scipy frozen distributions as reference model",
+        text="Seeded exploration of construct/fit/failed-fit/evaluate histories over every family and every non-empty proper subset of fixed parameters, with invariants (fixed value retained, evaluation equals the family's law at the current parameters, fit succeeds for supported subsets, conditional evaluation uses the fixed value at every conditioning value) checked after every step.",
+        note="Trusts scipy.stats frozen distributions as the independent statement of each family's law; numerical estimator failures are inconclusive, keyword-translation failures are violations."),
 }
 
 NA = {
